@@ -410,6 +410,24 @@ func runC17(c *Ctx) {
 	// every record that passes the length tests reaches the dispatch on its type: no path from the record-length test to
 	// the next iteration avoids the comparisons of the type field (a filter on class, TTL or anything else in between drops
 	// well-formed records - mDNS sets the top bit of the class on the records a responder owns)
+	// the change flag of the answer decoder accumulates over the records of one message: once a record has set it, no
+	// later record takes it back (a message whose first record is new and whose last is already known is a change)
+	r.Rule("change-flag", "the change flag of the record loop is monotone: set by any record, reset by none", 1)
+	if fn := c.P.Method("", "DNSEntry", "decodeRRs"); fn != nil {
+		flags := loopFlags(fn)
+		for _, lf := range flags {
+			st, det := core.Proved, ""
+			if !lf.Monotone {
+				st = core.Violated
+				det = "decodeRRs assigns " + lf.Why + " to its loop-carried flag " + lf.Phi.Comment + " on a path where the flag may already be true: a record that is already known erases the change reported by an earlier record of the same message"
+			}
+			r.Add(core.Obligation{Rule: "change-flag", Key: "change-flag decodeRRs " + lf.Phi.Comment, Func: core.FuncName(fn), Pos: c.P.Pos(lf.Phi.Pos()), Status: st,
+				Basis: "every value coming round the record loop is the flag itself, true, or assigned only while the flag is false", Detail: det})
+		}
+		if len(flags) == 0 {
+			r.Add(core.Obligation{Rule: "change-flag", Key: "change-flag decodeRRs", Func: core.FuncName(fn), Pos: c.P.Pos(fn.Pos()), Status: core.Undecided, Detail: "decodeRRs has no loop-carried boolean: the way it reports a change was not recognised"})
+		}
+	}
 	r.Rule("dispatch", "every record that passes the length tests reaches the dispatch on its type", 1)
 	if fn := c.P.Method("", "DNSEntry", "decodeRRs"); fn != nil {
 		var typ ssa.Value
